@@ -113,16 +113,17 @@ struct Lin { trees: Vec<Tree>, params: HashMap<Var, Parameter>, free: Vec<(Var, 
 
 /// n variables with integer target values x*_i; a random subset is fixed at its target value; one equation per FREE variable i:
 /// d_i * v_i + sum over a sparse set S_i of other variables of c_ij * v_j - rhs_i, diagonally dominant, rhs_i consistent with x*
-fn linear_system(n: usize, seed: u64, start_at_solution: bool) -> Lin {
+/// `unit` (a power of two, so that every product stays exact) scales the unknowns; the coefficients are scaled by 1/unit, so the right-hand sides stay O(1)
+fn linear_system(n: usize, seed: u64, start_at_solution: bool, unit: f32) -> Lin {
     let mut rng = Rng::new(seed.wrapping_mul(0x9E37).wrapping_add(n as u64 * 131).wrapping_add(0xC19));
     let vars: Vec<Var> = (0..n).map(|_| Var::new()).collect();
-    let target: Vec<f32> = (0..n).map(|_| (rng.below(9) as f32) - 4.0).collect();
+    let target: Vec<f32> = (0..n).map(|_| ((rng.below(9) as f32) - 4.0) * unit).collect();
     let mut is_fixed: Vec<bool> = (0..n).map(|_| rng.below(3) == 0).collect();
     if is_fixed.iter().all(|f| *f) { is_fixed[rng.below(n)] = false; }
     let mut params = HashMap::new();
     for i in 0..n {
         if is_fixed[i] { params.insert(vars[i], Parameter::Fixed(target[i])); }
-        else { params.insert(vars[i], Parameter::Free(if start_at_solution { target[i] } else { target[i] + 1.0 + (rng.below(5) as f32) * 0.5 })); }
+        else { params.insert(vars[i], Parameter::Free(if start_at_solution { target[i] } else { target[i] + (1.0 + (rng.below(5) as f32) * 0.5) * unit })); }
     }
     let mut trees = vec![];
     for i in 0..n {
@@ -132,9 +133,9 @@ fn linear_system(n: usize, seed: u64, start_at_solution: bool) -> Lin {
         let k = if n > 1 { rng.below(4.min(n)) } else { 0 };
         for _ in 0..k {
             let j = rng.below(n);
-            if j != i && !terms.iter().any(|t| t.0 == j) { terms.push((j, [1.0f32, -1.0, 0.5, 2.0][rng.below(4)])); }
+            if j != i && !terms.iter().any(|t| t.0 == j) { terms.push((j, [1.0f32, -1.0, 0.5, 2.0][rng.below(4)] / unit)); }
         }
-        let dom: f32 = terms.iter().map(|t| t.1.abs()).sum::<f32>() + 2.0 + rng.below(3) as f32;
+        let dom: f32 = terms.iter().map(|t| t.1.abs()).sum::<f32>() + (2.0 + rng.below(3) as f32) / unit;
         terms.push((i, dom));
         // random term order (so that the slot of a variable differs between equations)
         for a in (1..terms.len()).rev() { let b = rng.below(a + 1); terms.swap(a, b); }
@@ -148,7 +149,7 @@ fn linear_system(n: usize, seed: u64, start_at_solution: bool) -> Lin {
     }
     let free = (0..n).filter(|&i| !is_fixed[i]).map(|i| (vars[i], target[i] as f64)).collect();
     let fixed = (0..n).filter(|&i| is_fixed[i]).map(|i| vars[i]).collect();
-    Lin { trees, params, free, fixed, desc: format!("n={n}, seed={seed}, fixed={:?}", is_fixed.iter().map(|b| *b as u8).collect::<Vec<_>>()) }
+    Lin { trees, params, free, fixed, desc: format!("n={n}, seed={seed}, unit={unit:e}, fixed={:?}", is_fixed.iter().map(|b| *b as u8).collect::<Vec<_>>()) }
 }
 
 fn solve_on(backend: usize, trees: &[Tree], params: &HashMap<Var, Parameter>) -> Result<HashMap<Var, f32>, String> {
@@ -171,10 +172,14 @@ pub fn solver_linear(thorough: bool) -> Report {
     std::panic::set_hook(Box::new(|_| {}));
     let max_n = if thorough { 40 } else { 14 };
     let seeds = if thorough { 6 } else { 3 };
+    // unknowns of magnitude 1, 2^-27 (stiff: coefficients ~1e8, steps far below f32::EPSILON in absolute terms) and 2^13
+    let units: [f32; 3] = [1.0, 7.450580596923828e-9, 8192.0];
     for n in 1..=max_n {
+      for &unit in &units {
+        if unit != 1.0 && n > 8 { continue; }
         for seed in 0..seeds {
             for start_at_solution in [false, true] {
-                let sys = linear_system(n, seed, start_at_solution);
+                let sys = linear_system(n, seed, start_at_solution, unit);
                 let mut sols: Vec<Option<HashMap<Var, f32>>> = vec![];
                 for backend in 0..2 {
                     r.cases += 1;
@@ -189,7 +194,7 @@ pub fn solver_linear(thorough: bool) -> Report {
                                 match sol.get(v) {
                                     None => bad.push(format!("free parameter #{i} missing")),
                                     Some(g) if start_at_solution && (*g as f64) != *w => bad.push(format!("start satisfies every equation exactly but free parameter #{i} moved from {w} to {g}")),
-                                    Some(g) if ((*g as f64) - w).abs() > 1e-2 * (1.0 + w.abs()) => bad.push(format!("free parameter #{i}: got {g}, unique solution {w}")),
+                                    Some(g) if ((*g as f64) - w).abs() > 1e-2 * (unit as f64 + w.abs()) => bad.push(format!("free parameter #{i}: got {g}, unique solution {w}")),
                                     _ => {}
                                 }
                             }
@@ -204,7 +209,7 @@ pub fn solver_linear(thorough: bool) -> Report {
                 if let (Some(a), Some(b)) = (&sols[0], &sols[1]) {
                     for (v, _) in &sys.free {
                         if let (Some(x), Some(y)) = (a.get(v), b.get(v)) {
-                            if (x - y).abs() > 1e-2 * (1.0 + x.abs()) {
+                            if (x - y).abs() > 1e-2 * (unit + x.abs()) {
                                 r.fail(format!("linear:{}:backends", sys.desc), format!("[solver-backend] system ({}): VM gives {x}, JIT gives {y} for the same free parameter", sys.desc), json!({"contract":"solver_linear"}));
                                 break;
                             }
@@ -213,6 +218,7 @@ pub fn solver_linear(thorough: bool) -> Report {
                 }
             }
         }
+      }
     }
     // no free parameter at all: the result is the empty map
     for backend in 0..2 {
@@ -228,7 +234,7 @@ pub fn solver_linear(thorough: bool) -> Report {
         }
     }
     std::panic::set_hook(prev);
-    r.space = format!("diagonally dominant consistent linear systems with 1..={max_n} variables (integer target values in -4..=4) x {seeds} seeds: a random third of the variables fixed at their target value (never all), one equation per free variable over a sparse random subset of up to 4 variables in random term order, free parameters started off the solution and exactly at it, x {{VM, JIT}}: exactly the free parameters are returned, each within 1e-2 relative of the unique solution, bit-identical to the start when the start satisfies every equation exactly, VM and JIT within 1e-2 of each other; plus the system whose only parameter is fixed (expected: empty result)");
+    r.space = format!("diagonally dominant consistent linear systems with 1..={max_n} variables (integer target values in -4..=4) x {seeds} seeds x unknowns of magnitude 1 and (n <= 8) 2^-27 (coefficients ~1e8, right-hand sides O(1)) and 2^13: a random third of the variables fixed at their target value (never all), one equation per free variable over a sparse random subset of up to 4 variables in random term order, free parameters started off the solution and exactly at it, x {{VM, JIT}}: exactly the free parameters are returned, each within 1e-2 relative of the unique solution, bit-identical to the start when the start satisfies every equation exactly, VM and JIT within 1e-2 of each other; plus the system whose only parameter is fixed (expected: empty result)");
     r.distinct = r.cases;
     r.exhaustive = false;
     r.sample(json!({"n":5,"fixed":[0,1,0,0,1],"equation":"3*v2 + 1*v0 - 0.5*v4 - rhs"}));
